@@ -19,11 +19,13 @@ const (
 	IllCount        = "count<=0"
 	IllNoComps      = "no-components"
 	IllSetMissing   = "set-missing"
+	IllResPresent   = "resource-present"
+	IllResAbsent    = "resource-absent"
 )
 
 // AllIllegal lists every class DrawIllegal knows.
 var AllIllegal = []string{IllDeadEntity, IllAddPresent, IllRemoveAbsent, IllDupIDs, IllAddAndRemove, IllSecondRel,
-	IllRelMissing, IllRelNotRel, IllNoBuilderRel, IllDeadTarget, IllCount, IllNoComps, IllSetMissing}
+	IllRelMissing, IllRelNotRel, IllNoBuilderRel, IllDeadTarget, IllCount, IllNoComps, IllSetMissing, IllResPresent, IllResAbsent}
 
 func pick(t *rapid.T, v []int, label string) int {
 	return v[rapid.IntRange(0, len(v)-1).Draw(t, label)]
@@ -332,6 +334,22 @@ func (g *Gen) drawIllegal(t *rapid.T, cl string) (Op, bool) {
 			}
 			return Op{K: OpRelExchange, E: e, C: pick(t, rels, "rel"), T: TZero}, true
 		}
+
+	case IllResPresent, IllResAbsent:
+		cands := []int{}
+		for r := 0; r < NumRes; r++ {
+			if m.Res[r] == (cl == IllResPresent) {
+				cands = append(cands, r)
+			}
+		}
+		if len(cands) == 0 {
+			return Op{}, false
+		}
+		k := OpResAdd
+		if cl == IllResAbsent {
+			k = OpResRemove
+		}
+		return Op{K: k, C: pick(t, cands, "res")}, true
 
 	case IllSetMissing:
 		e, ok := g.pickWith(t, func(s EntState) bool { return s.Count() < n })
